@@ -14,13 +14,15 @@ Vocabulary used below
   response, `s'` = state after the chain executed them. `order` is the (checked) witness for the order in which
   `query_all_balances` lists the contract's coins; every theorem holds for every order.
 * `selected denoms d` — `d` is in the explicit list, or there is no list.
-* "the contract is not a paid member" (`hself`): `∀ m ∈ members, 0 < m.2 → m.1 ≠ s.self`. The property text is
-  unconditional, but on the code as it is a group admin CAN add the splits contract to its own group with a
-  weight; the contract then "pays itself" (a transfer from and to the same account), keeps
+* "the contract is not a paid member" (`hself`): `∀ m ∈ members, 0 < m.2 → m.1 ≠ s.self`. A group admin CAN add the
+  splits contract to its own group with a weight (cw4-group accepts any address); in that DEGENERATE SELF-MEMBER
+  configuration the contract "pays itself" (a transfer from and to the same account), keeps
   `w_self·floor(B/T) + B mod T ≥ T`, and — if it sorts before the other members — a denom listed twice is paid twice.
   So the balance-level clauses "remainder < total weight" and "each member gets exactly weight × floor(B/T)" are
-  FALSE without `hself` (`C15_remainder_self_member_counterexample`, `C15_exact_amount_self_first_counterexample`,
-  replays `corpus/C15/*.json`). The theorems that need `hself` (or "no denom listed twice") are therefore named
+  false in the degenerate self-member configuration (`C15_remainder_self_member_counterexample`,
+  `C15_exact_amount_self_first_counterexample`, replays `corpus/C15/*.json`); the non-degenerate reading (`hself`) holds.
+  Classification (coordinator, DESIGN 13.3): recorded as an OBSERVATION, not a finding — the configuration is outside the
+  property's intended quantifier. The theorems that need `hself` (or "no denom listed twice") are therefore named
   `…_partial`, with the full clause quoted above them; the statements WITHOUT any side condition are
   `C15_msgs_exact` (messages) and `C15_amounts_general` (balances, with the number of occurrences of a denom).
 * `occ denoms d` — how often the call selects denom `d` (1 without a list, else its multiplicity in the list).
@@ -98,7 +100,8 @@ theorem C15_amounts_general {s s' : State} (hwf : SWF s)
   obtain ⟨g1, g2⟩ := distribute_general (s := { s with bank := b1 }) hwf hm he
   exact ⟨b1, hb1, g1, g2, fun d => by have := g2 d; simp only [] at this; omega⟩
 
-/-- FULL CLAUSE (false for the code as it is, see `C15_exact_amount_self_first_counterexample`): "a distribution pays each
+/-- FULL CLAUSE (false in the degenerate self-member configuration, see `C15_exact_amount_self_first_counterexample`;
+observation, DESIGN 13.3): "a distribution pays each
 group member weight × floor(balance / total_weight) of every distributed denom" — for every accepted call.
 PROVED (partial): the clause when the contract is not a paid member of its own group. What is missing: the contract
 rejecting (or cw4-group never containing) its own address, or `denom_list` being de-duplicated.
@@ -152,7 +155,8 @@ theorem C15_bound_arith (B T : Nat) (hT : 0 < T) :
     T * (B / T) ≤ B ∧ B - T * (B / T) = B % T ∧ B % T < T :=
   ⟨Nat.mul_div_le B T, (Nat.mod_def B T).symm, Nat.mod_lt B hT⟩
 
-/-- FULL CLAUSE (false for the code as it is, see `C15_remainder_self_member_counterexample`): "the undistributed remainder
+/-- FULL CLAUSE (false in the degenerate self-member configuration, see `C15_remainder_self_member_counterexample`;
+observation, DESIGN 13.3): "the undistributed remainder
 of each denom is smaller than the total weight" — after every accepted call.
 PROVED (partial): the clause when the contract is not a paid member of its own group. Without that the contract keeps
 `own weight × floor(B/T) + B mod T` (`C15_amounts_general`), and "the total paid never exceeds the balance" still
@@ -190,9 +194,11 @@ theorem C15_remainder_partial {s s' : State} (hwf : SWF s) (hself : ∀ m ∈ s.
     have e2 := hacc d
     exact ⟨e1, by omega⟩
 
-/-- **Never more than is held**, without any hypothesis about who is a member: each message is covered by the
-contract's balance at the moment it executes (the bank refuses it otherwise and the transaction aborts), and when
-the contract is not itself a recipient the per-denom total of all messages is covered by the balance it started with. -/
+/-- **Never more than is held**, without any hypothesis about who is a member: the HEAD message is covered by the
+contract's balance at the moment it executes (the bank refuses it otherwise and the transaction aborts) — the statement
+for EVERY message of the list, each against the bank as it is when that message executes, is `C15_every_msg_covered`
+right below — and when the contract is not itself a recipient the per-denom total of all messages is covered by the
+balance it started with. -/
 theorem C15_never_more_than_held {b b' : Bank} {self : Addr} {msgs : List Pay} (he : execPays b self msgs = some b') :
     (∀ p ps, msgs = p :: ps → p.amount ≤ bal b self p.denom) ∧
     ((∀ p ∈ msgs, p.to ≠ self) → ∀ d, sumDen d msgs ≤ bal b self d ∧ bal b' self d + sumDen d msgs = bal b self d) := by
@@ -203,6 +209,32 @@ theorem C15_never_more_than_held {b b' : Bank} {self : Addr} {msgs : List Pay} (
     · simp at he
     · next b1 hd => exact (debit_some hd).1
   · have := (execPays_noself hns he).1 d; omega
+
+/-- **Never more than is held, every message** (added by the round-4 statement audit): if the bank executed the whole
+list, then EACH message `p` — wherever it stands, `msgs = pre ++ p :: post` — was covered by the contract's balance in
+the bank `b1` reached after the messages before it (`pre`), i.e. at the moment it executed. No hypothesis about who is
+a member or recipient. -/
+theorem C15_every_msg_covered {self : Addr} {msgs : List Pay} {b b' : Bank} (he : execPays b self msgs = some b') :
+    ∀ pre p post, msgs = pre ++ p :: post →
+      ∃ b1, execPays b self pre = some b1 ∧ p.amount ≤ bal b1 self p.denom := by
+  induction msgs generalizing b with
+  | nil => intro pre p post h; simp at h
+  | cons q qs ih =>
+    intro pre p post h
+    cases hd : debit b self q.denom q.amount with
+    | none => simp [execPays, hd] at he
+    | some bq =>
+      simp only [execPays, hd] at he
+      cases pre with
+      | nil =>
+        simp only [List.nil_append, List.cons.injEq] at h
+        obtain ⟨rfl, _⟩ := h
+        exact ⟨b, rfl, (debit_some hd).1⟩
+      | cons r pre' =>
+        simp only [List.cons_append, List.cons.injEq] at h
+        obtain ⟨rfl, h2⟩ := h
+        obtain ⟨b1, h1, hle⟩ := ih he pre' p post h2
+        exact ⟨b1, by simp only [execPays, hd]; exact h1, hle⟩
 
 /-! ## "It is refused when the caller is not entitled, the group has no weight, no or too many members (more than
 25), or there is nothing to distribute" — and a refused call changes nothing -/
@@ -298,7 +330,7 @@ theorem C15_refused_uncovered_funds {s : State} (sender : Addr) (funds : List Co
   intro b1 hb1; rw [h] at hb1; simp at hb1
 
 /-- FULL CLAUSE: the refusal conditions of the property text are the ONLY ones. False as it stands: a denom listed twice
-is refused by the bank (`C15_duplicate_denom_refused`), and with the contract as a paid member the outcome depends on
+is refused by the bank (`C15_duplicate_denom_refused_partial`), and with the contract as a paid member the outcome depends on
 the payment order. PROVED (partial), under these two side conditions:
 
 **Conversely it is accepted** (no funds attached): entitled caller, total weight > 0, 1..25 members, some selected
@@ -396,9 +428,12 @@ theorem C15_history_no_overdraft_partial {s0 : State} (h0 : SWF s0) (ops : List 
     exact hself m hmm hpos
   exact ⟨b1, hb1, (C15_never_more_than_held he).2 hns⟩
 
-/-- a denom listed twice whose balance reaches the total weight makes the bank refuse the call (the second round is
-not covered) — unless the contract pays itself first, see the last example -/
-theorem C15_duplicate_denom_refused {s : State} (hwf : SWF s) (hself : ∀ m ∈ s.group.members, 0 < m.2 → m.1 ≠ s.self)
+/-- PARTIAL (`hself`: the contract is not a weighted member of its own group). Unconditionally "a denom listed twice is
+refused" does NOT hold: `C15_exact_amount_self_first_counterexample` is exactly a duplicated denom that is not refused
+(the contract pays itself first). Proved:
+a denom listed twice whose balance reaches the total weight makes the bank refuse the call (the second round is
+not covered) when the contract is not a weighted member of its own group. -/
+theorem C15_duplicate_denom_refused_partial {s : State} (hwf : SWF s) (hself : ∀ m ∈ s.group.members, 0 < m.2 → m.1 ≠ s.self)
     (sender : Addr) {l : List Denom} (order : List Denom) {d : Denom}
     (hdup : 2 ≤ l.count d) (hbal : s.group.total ≤ bal s.bank s.self d) :
     ∃ e, distribute s sender [] (some l) order = .error e := by
@@ -428,6 +463,13 @@ theorem C15_duplicate_denom_refused {s : State} (hwf : SWF s) (hself : ∀ m ∈
   have h2 : 2 * (bal s.bank s.self d / s.group.total) ≤ l.count d * (bal s.bank s.self d / s.group.total) :=
     Nat.mul_le_mul_right _ hdup
   omega
+
+/-- alias of `C15_duplicate_denom_refused_partial` (kept because other modules refer to it) -/
+theorem C15_duplicate_denom_refused {s : State} (hwf : SWF s) (hself : ∀ m ∈ s.group.members, 0 < m.2 → m.1 ≠ s.self)
+    (sender : Addr) {l : List Denom} (order : List Denom) {d : Denom}
+    (hdup : 2 ≤ l.count d) (hbal : s.group.total ≤ bal s.bank s.self d) :
+    ∃ e, distribute s sender [] (some l) order = .error e :=
+  C15_duplicate_denom_refused_partial hwf hself sender order hdup hbal
 
 /-! ## the side-condition-free history statements, and "nothing but a distribution takes coins out of the contract" -/
 
@@ -551,14 +593,17 @@ example : step' exC15 (.distribute 7 [] none [0, 1]) = exC15 :=
     show ∀ w, (7, w) ∉ exC15.group.members
     intro w hw; simp [exC15] at hw))
 
-/-! ## the two literal clauses the unchanged code does NOT satisfy (replayed on the real contracts: `corpus/C15/`) -/
+/-! ## the two literal clauses that fail in the DEGENERATE SELF-MEMBER configuration (contract = weighted member of its
+own group; replayed on the real contracts: `corpus/C15/`). Recorded as observations (DESIGN 13.3), not findings: the
+non-degenerate reading (`hself`, the `…_partial` theorems) holds. -/
 
 /-- the group of `corpus/C15/self-member-remainder.json`: member 10 (weight 1) and the splits contract itself (1001,
 weight 9); admin 5; the contract holds 100 of denom 0 -/
 def exSelfMember : State := ⟨1001, 1000, some 5, ⟨some 6, [(10, 1), (1001, 9)], 10⟩, [((1001, 0), 100)]⟩
 
-/-- **"the undistributed remainder of each denom is smaller than the total weight" is FALSE for the code as it is**: the
-group admin made the splits contract a weighted member of its own group (cw4-group accepts any address); after an
+/-- **"the undistributed remainder of each denom is smaller than the total weight" is false in the degenerate
+self-member configuration** (observation, DESIGN 13.3, not a finding; the non-degenerate reading `C15_remainder_partial`
+holds): the group admin made the splits contract a weighted member of its own group (cw4-group accepts any address); after an
 accepted distribution of 100 with total weight 10 the contract still holds 90 ≥ 10 (its "own share" 9 × 10 never
 leaves). The same call can be repeated for ever: 90 → 81 → … -/
 theorem C15_remainder_self_member_counterexample :
@@ -577,12 +622,13 @@ theorem C15_remainder_self_member_counterexample :
 the group contract 1001, which is the other member) -/
 def exSelfFirst : State := ⟨1000, 1001, some 5, ⟨some 6, [(1000, 9), (1001, 1)], 10⟩, [((1000, 0), 100)]⟩
 
-/-- **"pays each group member weight × floor(balance / total_weight) of every distributed denom" is FALSE for the code as
-it is**: the contract is a weighted member of its own group and is paid BEFORE the others (address order); with the
+/-- **"pays each group member weight × floor(balance / total_weight) of every distributed denom" is false in the
+degenerate self-member configuration with a duplicated denom** (observation, DESIGN 13.3, not a finding; the
+non-degenerate reading `C15_amounts_partial` holds): the contract is a weighted member of its own group and is paid BEFORE the others (address order); with the
 denom listed twice its payments to itself are no-ops, so the bank does not stop the duplicate and member 1001
 (weight 1 of 10, balance 100) receives 2 × 10 instead of 10. Nobody outside the group loses coins (supply is conserved,
 the surplus comes out of the contract's own share). With `hself`, or with the contract paid last, the duplicate is
-always refused by the bank (`C15_duplicate_denom_refused`). -/
+always refused by the bank (`C15_duplicate_denom_refused_partial`). -/
 theorem C15_exact_amount_self_first_counterexample :
     ¬ ∀ (s s' : State) (sender : Addr) (funds : List Coin) (denoms : Option (List Denom)) (order : List Denom)
         (msgs : List Pay), SWF s → distribute s sender funds denoms order = .ok (s', msgs) →
